@@ -81,7 +81,7 @@ func TestVerif(t *testing.T) {
 		for _, n := range names {
 			add(rh.RunFixed(t, "witness:"+n, "cidr", rh.Pools{}, append(w[n], rh.Op{Code: rh.OpLookupAll}), mon, 64))
 		}
-		n := c.N(24, 600)
+		n := c.N(24, 300)
 		sm := rh.NewStrMaterial(c.Rand.Fork())
 		for i := 0; i < n; i++ {
 			g := rh.NewGen(c.Rand.Fork(), "cidr", sm)
@@ -92,5 +92,11 @@ func TestVerif(t *testing.T) {
 			add(rh.RunGenerated(t, fmt.Sprintf("gen-%d", i), g, mon, nm, 2))
 		}
 	}
-	c.WriteCasesV("cases.v", rh.CasesFile(hs))
+	if c.Thorough() && c.Replay == "" {
+		for _, f := range rh.Stress(c.Rand.Fork(), 8, 3000) {
+			c.Fail(f.Sig, f.Detail, "concurrent stress phase (thorough tier)")
+		}
+		c.Count("stress-phase")
+	}
+	rh.WriteCases(c, hs)
 }
